@@ -1,6 +1,7 @@
 import FcpptModel.Spec.C20
 import FcpptProofs.C20.Lemmas
 import FcpptProofs.C20.Script
+import FcpptProofs.C20.ScriptRange
 /-!
 # C20 — property theorems
 
@@ -213,6 +214,26 @@ theorem history_in_range {D : StdDist Int δ} (hU : D.UniformInt) (ty : Ty) (G :
       simp only [runF, boundsInForce]
       exact ih _ g _ (by simp only [Basic.setParam, Param2.convertFrom]; rw [hU.toLawful.param_setParam]) hv.1 hv.2
 
+/-- **In range over whole programs** (given the standard's contract).  For any program over any number of
+uniform integer distributions and variates — copies, assignments, swaps, `reset()`, `param(p)`, variates built
+from used distributions, copies of variates, in any interleaving — that asks only for non-empty intervals and
+does not use an object that does not exist: every drawn value lies in the interval that had been requested
+*for the object it was drawn from* at that moment (an interval travels with every copy), and `min()`, `max()`
+and the parameters of the wrapped distribution report exactly that interval.  `boundsScript` computes the
+requested intervals from the program text alone. -/
+theorem script_in_range {D : StdDist Int δ} (hU : D.UniformInt) (out : δ → String) (ty : Ty) (G : Gen γ)
+    (acts : List (Act Int)) (g : γ) (r : List (Ev (DVal Int) Int) × ObjsF δ × γ)
+    (hr : runScriptF D out ty (basicPseudo G) acts ObjsF.empty g = .ok r) (hv : ∀ a ∈ acts, ActValid a) :
+    EvsWithin r.1 (boundsScript acts Bnds.empty) :=
+  (runScriptF_within hU out ty (basicPseudo G) acts ObjsF.empty g Bnds.empty r hr (tracks_empty D) hv).1
+
+/-- the same from any state whose objects hold the intervals listed in `b` -/
+theorem script_in_range_from {D : StdDist Int δ} (hU : D.UniformInt) (out : δ → String) (ty : Ty) (G : Gen γ)
+    (acts : List (Act Int)) (s : ObjsF δ) (g : γ) (b : Bnds) (r : List (Ev (DVal Int) Int) × ObjsF δ × γ)
+    (hr : runScriptF D out ty (basicPseudo G) acts s g = .ok r) (ht : Tracks D s b) (hv : ∀ a ∈ acts, ActValid a) :
+    EvsWithin r.1 (boundsScript acts b) ∧ Tracks D r.2.1 (acts.foldl (fun b a => (boundsStep a b).2) b) :=
+  runScriptF_within hU out ty (basicPseudo G) acts s g b r hr ht hv
+
 /-- **Enum distributions yield enumerators**: `make_uniform_enum<E>()` for an enum whose largest
 enumerator has value `maxValue` only yields `E(x)` with `0 ≤ x ≤ maxValue`. -/
 theorem enum_in_range {D : StdDist Int δ} (hU : D.UniformInt) (G : Gen γ) (maxValue : Nat) (n : Nat) (g : γ) :
@@ -284,6 +305,32 @@ theorem index_valid {α : Type} {D : StdDist Int δ} (hU : D.UniformInt) (G : Ge
   rw [hr] at hr'
   cases hr'
   exact fun ei hei => (hall ei hei).1
+
+/-- **Container programs never index out of bounds.**  Any program over several `uniform_container`s on one
+container of size `n` — made by the factory or by the public constructor with an index interval inside
+`[0, n)`, copied and assigned at will, drawn from in any interleaving, while the program overwrites elements
+directly or through the references the draws return — either uses a wrapper that does not exist or runs to
+the end: the `oob` fault of `operator[]` is unreachable, every index drawn is `< n`, and the wrappers keep
+holding intervals inside the container (`CInv`). -/
+theorem container_script_safe {α : Type} {D : StdDist Int δ} (hU : D.UniformInt) (G : Gen γ) (n : Nat)
+    (acts : List (CAct α)) (c : List α) (s : Nat → Option (Basic δ)) (g : γ) (hinv : CInv D n c s)
+    (hv : ∀ a ∈ acts, CActValid n a) :
+    runCScript D (basicPseudo G) acts c s g = .error .emptyDeref ∨
+      ∃ r, runCScript D (basicPseudo G) acts c s g = .ok r ∧ CInv D n r.2.1 r.2.2.1 ∧ ∀ ev ∈ r.1, CEv.idxLt n ev :=
+  runCScript_safe hU (basicPseudo G) n acts c s g hinv hv
+
+/-- one step: what a draw returns *is* the element the container holds at the drawn index at that moment (the
+wrapper refers to the container, it has no copy of it), and the factory reports a wrapper iff the container is
+not empty -/
+theorem container_step_elem {α : Type} {D : StdDist Int δ} (hU : D.UniformInt) (G : Gen γ) (n : Nat) (a : CAct α)
+    (c : List α) (s : Nat → Option (Basic δ)) (g : γ) (hinv : CInv D n c s) (hv : CActValid n a) :
+    cstep D (basicPseudo G) a c s g = .error .emptyDeref ∨
+      ∃ r, cstep D (basicPseudo G) a c s g = .ok r ∧ CInv D n r.2.1 r.2.2.1 ∧ ∀ ev ∈ r.1, CEvOk n c ev :=
+  cstep_safe hU (basicPseudo G) n a c s g hinv hv
+
+/-- the empty table of wrappers satisfies the invariant for every container -/
+theorem container_inv_start {α : Type} (D : StdDist Int δ) (c : List α) : CInv D c.length c (fun _ => none) :=
+  ⟨rfl, fun _ _ h => by simp at h⟩
 
 /-! ## both ends -/
 
@@ -361,6 +408,36 @@ example :
 counter engine the seventh draw indexes past the end -/
 example :
     (UniformContainer.draws modDist ctrEngine 8 (UniformContainer.ctor modDist [10, 20, 30] ⟨.base 0, .base 3⟩) 0).toOption.isNone = true := by
+  decide
+
+/-- a program with copies: `D1` is copy-constructed from `D0` after two draws and continues `D0`'s sequence from
+`D0`'s state (`k = 2`), both on the one generator; comparing them tells the states apart -/
+example :
+    (runScriptF modDist modOut (.strong .base) (basicPseudo ctrEngine)
+      [.newP 0 ⟨.strong (.base 0), .strong (.base 9)⟩, .draw 0, .draw 0, .copy 1 0 false, .eq 0 1, .draw 1, .eq 0 1, .draw 0, .eq 0 1,
+        .look 1] ObjsF.empty 5).toOption.map (·.1)
+      = some [.val (.strong (.base 5)), .val (.strong (.base 7)), .eq true, .val (.strong (.base 0)), .eq false,
+          .val (.strong (.base 1)), .eq true, .look (.strong (.base 0)) (.strong (.base 9)) (0, 9) "0 9 3"] ∧
+    boundsScript [.newP 0 ⟨.strong (.base 0), .strong (.base 9)⟩, .draw 0, .draw 0, .copy 1 0 false, .eq 0 1, .draw 1, .eq 0 1,
+        .draw 0, .eq 0 1, .look 1] Bnds.empty
+      = [some (0, 9), some (0, 9), none, some (0, 9), none, some (0, 9), none, some (0, 9)] := by
+  decide
+
+/-- drawing from a temporary copy (the seeded regression `C20-2`) is refuted by the model: the second value would
+repeat the state `k = 0` -/
+example :
+    let lossy : List (Act Int) := [.newP 0 ⟨.base 0, .base 9⟩, .copy 1 0 false, .draw 1, .copy 1 0 false, .draw 1]
+    let right : List (Act Int) := [.newP 0 ⟨.base 0, .base 9⟩, .draw 0, .draw 0]
+    (runScriptF modDist modOut .base (basicPseudo ctrEngine) lossy ObjsF.empty 5).toOption.map (·.1) = some [.val (.base 5), .val (.base 6)] ∧
+    (runScriptF modDist modOut .base (basicPseudo ctrEngine) right ObjsF.empty 5).toOption.map (·.1) = some [.val (.base 5), .val (.base 7)] := by
+  decide
+
+/-- a container program: the wrapper sees the element written after it was made, and the program writes through
+the reference a draw returns -/
+example :
+    (runCScript modDist (basicPseudo ctrEngine) [.make 0, .draw 0, .write 2 99, .copy 1 0 false, .draw 1, .drawWrite 0 7]
+      [10, 20, 30] (fun _ => none) 5).toOption.map (fun r => (r.1, r.2.1))
+      = some ([.made true, .elem 30 2, .elem 20 1, .elem 99 2], [10, 20, 7]) := by
   decide
 
 end Fcppt.C20
